@@ -67,7 +67,7 @@ func enumPaths(v reflect.Value, tag string, prefix []string, depth int, out *[]P
 	}
 	switch cur.Kind() {
 	case reflect.Map:
-		for _, k := range cur.MapKeys() {
+		for _, k := range sortedMapKeys(cur) {
 			if cur.Type().Key().Kind() == reflect.Interface {
 				// a path part is a string: it only addresses keys whose dynamic type is exactly string
 				if kk := k.Elem(); !kk.IsValid() || kk.Type() != reflect.TypeOf("") {
@@ -174,7 +174,7 @@ func (g *Gen) literalsFor(v reflect.Value) []string {
 		return out
 	case reflect.Map:
 		out := []string{"a", "foo", "k", "zz", "", "1", "0", "true", "bar"}
-		for _, k := range v.MapKeys() {
+		for _, k := range sortedMapKeys(v) {
 			if ks, ok := keyString(k); ok {
 				out = append(out, ks)
 			}
@@ -416,7 +416,7 @@ func (g *Gen) genColl(root reflect.Value, tag string, paths []PathInfo, depth in
 				elems = append(elems, cv.Index(i))
 			}
 		case reflect.Map:
-			for _, k := range cv.MapKeys() {
+			for _, k := range sortedMapKeys(cv) {
 				keys = append(keys, k)
 				elems = append(elems, cv.MapIndex(k))
 			}
